@@ -21,6 +21,7 @@ type PropSpec struct {
 	Sweep          []string `json:"sweep"`           // safety-only (no-panic) verification, default contract `requires true`
 	Lemmas         []string `json:"lemmas"`          // lemma names
 	AssumeChecks   map[string]string `json:"assume_checks"` // run-time checks accepted as ENVIRONMENT assumptions (obligation name -> why): not remote input, invariant of a decoder/constructor that is not under contract; listed, never counted as discharged
+	AssumeFrames   []string `json:"assume_frames"`   // callees (substring of the key) assumed not to write memory that existed before the call (environment assumption of THIS property, reported)
 	IgnoreKinds    []string `json:"ignore_kinds"`    // obligation kinds that are not part of THIS property (e.g. run-time checks, which belong to C01); dropped, counted separately
 	Exclude        []string `json:"exclude"`         // function literals of listed functions that are NOT verified (named in not_decided)
 	MinObligations int      `json:"min_obligations"` // vacuity guard: the run must generate at least this many
@@ -141,6 +142,7 @@ func cmdCheck(args []string) {
 		addAnon(f, sweepSet[funcKey(f)])
 	}
 	V.SweepSet = sweepSet
+	V.AssumeFrames = spec.AssumeFrames
 	V.IgnoreKinds = map[string]bool{}
 	for _, k := range spec.IgnoreKinds {
 		V.IgnoreKinds[k] = true
@@ -247,6 +249,21 @@ func cmdCheck(args []string) {
 	}
 	for k := range V.Assumed {
 		trusted = append(trusted, "callee without contract, assumed not to panic, havocs all memory: "+k)
+	}
+	verifiedSet := map[string]bool{}
+	for _, f := range spec.Functions {
+		verifiedSet[f] = true
+	}
+	for _, f := range spec.Sweep {
+		verifiedSet[f] = true
+	}
+	for k := range V.ContractUsed {
+		if !verifiedSet[k] {
+			trusted = append(trusted, "contract of a repository or dependency function applied at a call site but not verified by THIS check (verified under another property, or assumed): "+k)
+		}
+	}
+	for k := range V.FrameAssumed {
+		trusted = append(trusted, "frame assumed (assume_frames): the callee writes no memory that existed before the call: "+k)
 	}
 	for k := range V.GlobalsUsed {
 		trusted = append(trusted, "ground fact about a package-level variable (assumed): "+k)
